@@ -142,6 +142,16 @@ func (g *Gen) varsAt(h *ssa.BasicBlock) map[string]Val {
 			continue
 		}
 		for i, in := range b.Instrs {
+			if phi, ok := in.(*ssa.Phi); ok && phi.Comment != "" && phi.Comment != "rangeindex" {
+				// a phi redefines the variable at the start of its block
+				if _, have := g.vals[phi]; have {
+					c, have := best[phi.Comment]
+					if !have || c.blk.Dominates(b) {
+						best[phi.Comment] = cand{phi, b, -1, false}
+					}
+				}
+				continue
+			}
 			d, ok := in.(*ssa.DebugRef)
 			if !ok {
 				continue
@@ -695,7 +705,7 @@ func (e *Env) call(x *ECall) Val {
 		case "Iface":
 			t = sx("i-val", v.T)
 		}
-		return Val{T: sx(">=", t, sx("+", e.old.alloc, fmt.Sprint(refStride))), S: "Bool"}
+		return Val{T: sx(">", t, e.old.alloc), S: "Bool"}
 	case "allocated":
 		v := arg(0)
 		t := v.T
@@ -706,6 +716,22 @@ func (e *Env) call(x *ECall) Val {
 			t = sx("i-val", v.T)
 		}
 		return Val{T: sx("<=", t, e.st.alloc), S: "Bool"}
+	case "fieldheap":
+		tn := x.Args[0].(*EStr).V
+		fname := x.Args[1].(*EStr).V
+		t := g.P.typeByName(tn)
+		if t == nil {
+			e.fail("unknown type %s", tn)
+		}
+		if p, ok := t.Underlying().(*types.Pointer); ok {
+			t = p.Elem()
+		}
+		for _, h := range g.structHeapsSorted(t) {
+			if h.name == fieldHeapName(typeKey(t), fname) {
+				return Val{T: g.heap(e.st, h.name, "(Array Int "+h.sort+")"), S: "(Array Int " + h.sort + ")"}
+			}
+		}
+		e.fail("type %s has no field %s", tn, fname)
 	case "bvheap":
 		return Val{T: g.heap(e.st, "BV", "(Array Int Int)"), S: "(Array Int Int)"}
 	case "byteheap":
@@ -859,6 +885,23 @@ func (e *Env) modLocs(x Expr) []modLoc {
 				out = append(out, modLoc{heap: h.name, sort: h.sort, g: h.g})
 			}
 			return out
+		case "allfield":
+			// one field of every object of a struct type
+			tn := x.Args[0].(*EStr).V
+			fname := x.Args[1].(*EStr).V
+			t := g.P.typeByName(tn)
+			if t == nil {
+				e.fail("unknown type %s", tn)
+			}
+			if p, ok := t.Underlying().(*types.Pointer); ok {
+				t = p.Elem()
+			}
+			for _, h := range g.structHeapsSorted(t) {
+				if h.name == fieldHeapName(typeKey(t), fname) {
+					return []modLoc{{heap: h.name, sort: h.sort, g: h.g}}
+				}
+			}
+			e.fail("type %s has no field %s", tn, fname)
 		case "allelems":
 			tn := x.Args[0].(*EStr).V
 			t := g.P.typeByName(tn)
@@ -1358,6 +1401,20 @@ func (g *Gen) call(c *ssa.CallCommon, pos token.Pos, isGo bool) Val {
 	}
 	for _, v := range rs {
 		g.assume(g.typeInv(v, g.st))
+		// references are allocated refStride apart: a returned reference either
+		// existed before the call or lies a full stride above the old counter
+		if v.G != nil {
+			ref := ""
+			switch v.G.Underlying().(type) {
+			case *types.Pointer, *types.Map, *types.Chan:
+				ref = v.T
+			case *types.Slice:
+				ref = sx("s-arr", v.T)
+			}
+			if ref != "" {
+				g.assume(or(sx("<=", ref, pre.alloc), sx("<=", sx("+", pre.alloc, fmt.Sprint(refStride)), ref)))
+			}
+		}
 	}
 	post := *env
 	post.st = g.st
@@ -1375,6 +1432,9 @@ func (g *Gen) call(c *ssa.CallCommon, pos token.Pos, isGo bool) Val {
 		}
 	}
 	for _, en := range ct.Ensures {
+		if en.Assumed {
+			g.assumed = appendUniq(g.assumed, "assumed postcondition ["+en.Label+"] of "+ci.key+": "+en.Src)
+		}
 		g.assume(post.boolOf(en.E))
 	}
 	return r
@@ -1636,6 +1696,13 @@ func (g *Gen) appendOp(c *ssa.CallCommon) Val {
 	if hn == "El.uint8" && !srcIsString {
 		// ghost: the abstract byte string of the result is the concatenation
 		g.assume(sx("=", sx("bs", A, soff, newLen), sx("cat", sx("bs", old, soff, slen), sx("bs", sx("select", h, sx("s-arr", t.T)), sx("s-off", t.T), n))))
+	}
+	// an append that fits writes into the existing backing array
+	{
+		save := g.cur
+		g.cur = g.define("r", "Bool", and(g.cur, fits, sx(">", n, "0")))
+		g.frameCheck(hn, sx("s-arr", s.T), "", LElem)
+		g.cur = save
 	}
 	g.setHeap(g.st, hn, hs, sx("ite", sx("=", arrR, "0"), h, sx("store", h, arrR, A)))
 	return Val{T: R, S: "Slice", G: c.Args[0].Type()}
